@@ -79,10 +79,11 @@ func (c verifCtx) Value(k interface{}) interface{} {
 	return nil
 }
 
-// annotation lists of the field under test (kinds: 1 query, 2 path, 3 header, 4 cookie, 5 body, 8 form, 9 raw_uri)
+// annotation lists of the field under test (kinds: 1 query, 2 path, 3 header, 4 cookie, 5 body, 7 raw_body, 8 form, 9 raw_uri)
 var verifC17Lists = [][]int{
 	{1}, {2}, {3}, {4}, {5}, {8}, {9},
 	{1, 3}, {3, 1}, {2, 1, 3}, {4, 8}, {5, 4}, {8, 2}, {1, 9}, {3, 5, 1},
+	{7}, {1, 7}, {7, 1},
 }
 
 // VerifC17_Request: struct{1: string q (api.<L...> = "k", requiredness R); 2: i32 n (api.header = "X-N");
@@ -170,6 +171,12 @@ func VerifC17_Request() {
 			v = req.form
 		case 9:
 			v = req.GetUri()
+		case 7:
+			// the raw body is always "there", possibly empty: it ends the search
+			val, found = string(body), true
+		}
+		if found {
+			break
 		}
 		if v != "" {
 			val, found = v, true
@@ -181,9 +188,9 @@ func VerifC17_Request() {
 	hasQ := false
 	qv := ""
 	switch {
-	case found:
+	case found && val != "":
 		hasQ, qv = true, val
-	case opts.ReadHttpValueFallback && bodyQ:
+	case !found && opts.ReadHttpValueFallback && bodyQ:
 		hasQ, qv = true, "jq"
 	case r == 1 && !opts.WriteRequireField:
 		wantErr = true
